@@ -1082,9 +1082,97 @@ def sort_rule(F, rep):
                    b.loc(t["sp"]), key="R5:convert:sort")
 
 
+_NORMALISERS = ("to_uppercase", "to_lowercase", "to_ascii_uppercase", "to_ascii_lowercase", "make_ascii_uppercase", "make_ascii_lowercase",
+                "trim", "trim_start", "trim_end", "trim_matches", "trim_start_matches", "trim_end_matches", "replace", "replacen")
+
+
+def _norm_sig(F, term, depth=2, seen=None):
+    """the set of string normalisers (case folding, trimming, replacing) applied on the way to a value: in the term itself, in the
+    closures and fn items handed to its combinators, and inside the converter's own helpers it calls (depth 2)"""
+    seen = seen if seen is not None else set()
+    out = set()
+
+    def name_of(path):
+        return path.rsplit("::", 1)[-1].split("<")[0]
+
+    def from_body(hb, d):
+        if hb.id in seen or d < 0:
+            return
+        seen.add(hb.id)
+        for j, u in hb.calls():
+            m = parse_callee(u["callee"])[2]
+            if m in _NORMALISERS and ("str" in u["callee"] or "String" in u["callee"]):
+                out.add(m)
+            for a in u.get("args") or []:
+                k = a.get("k") if isinstance(a, dict) else None
+                if isinstance(k, dict) and k.get("fn"):
+                    n = name_of(k["fn"])
+                    if n in _NORMALISERS:
+                        out.add(n)
+                    if k["fn"] in F.bodies and F.bodies[k["fn"]].crate == "cgt_converter":
+                        from_body(F.bodies[k["fn"]], d - 1)
+            h = F.bodies.get(u["callee"])
+            if h is not None and h.crate == "cgt_converter":
+                from_body(h, d - 1)
+        for bi, si, st in hb.assigns():
+            if st["rv"]["k"] == "closure" and st["rv"]["id"] in F.bodies:
+                from_body(F.bodies[st["rv"]["id"]], d)
+
+    for x in subterms(term):
+        if not isinstance(x, tuple) or not x:
+            continue
+        if x[0] == "call":
+            m = parse_callee(x[1])[2]
+            if m in _NORMALISERS and ("str" in x[1] or "String" in x[1]):
+                out.add(m)
+            h = F.bodies.get(x[1])
+            if h is not None and h.crate == "cgt_converter":
+                from_body(h, depth - 1)
+        elif x[0] == "closure" and len(x) > 1 and x[1] in F.bodies:
+            from_body(F.bodies[x[1]], depth)
+        elif x[0] == "fn" and len(x) > 1 and isinstance(x[1], str):
+            n = name_of(x[1])
+            if n in _NORMALISERS:
+                out.add(n)
+            if x[1] in F.bodies and F.bodies[x[1]].crate == "cgt_converter":
+                from_body(F.bodies[x[1]], depth - 1)
+    return out
+
+
+def symbol_normalisation(F, rep):
+    """R2 (rows that are joined by symbol spell it the same way): dividends and their same-day withholding meet under the key
+    (date, symbol), cancellations meet their sells by symbol — so every parsed-row structure of the export reader that carries a
+    `symbol` must receive it through the same normalisation (trim / case folding / replacement). Sibling constructors that differ
+    (`CommonFields.symbol` upper-cased, `SchwabNraTax.symbol` as written) make the join miss for any symbol the normaliser changes:
+    the dividend silently loses its withholding (seeded change C18-s8). Decides the agreement of the constructors, not the join."""
+    sigs = []
+    for b in F.bodies.values():
+        if not b.id.startswith("cgt_converter::schwab::transactions") or not P.user_written(F, b):
+            continue
+        tb = None
+        for i, si, st in b.assigns():
+            rv = st["rv"]
+            if rv["k"] == "agg" and rv.get("adt", "").startswith("cgt_converter::schwab::") and "symbol" in (rv.get("fields") or []):
+                tb = tb or Terms(F, b, inline_depth=2)
+                t = tb.operand(rv["ops"][rv["fields"].index("symbol")])
+                sigs.append((rv["adt"].split("::")[-1], b, b.loc(st["sp"]), frozenset(_norm_sig(F, t))))
+    rep.count("R2_symbol_constructors", {a: sorted(s) for a, _, _, s in sigs})
+    if len(sigs) < 2:
+        rep.note("R2: fewer than two parsed-row structures carry a `symbol` (nothing to compare)")
+        return
+    ref = max({s for _, _, _, s in sigs}, key=lambda s: sum(1 for x in sigs if x[3] == s))
+    for adt, b, site, sg in sigs:
+        ok = sg == ref
+        rep.ob("R2", f"symbol-normalisation:{adt}", ok, f"`{adt}.symbol` is read with {sorted(sg) or 'no normaliser'} like its siblings" if ok else
+               f"`{adt}.symbol` is read with {sorted(sg) or 'no normaliser'} but its sibling row structures with {sorted(ref) or 'none'}: rows joined by "
+               "(date, symbol) — a dividend and its withholding, a cancellation and its sale — no longer meet for symbols the extra step changes",
+               site, key=f"R2:symbol-normalisation:{adt}")
+
+
 def run(ctx, rep):
     F = ctx.F
     exhaustive(F, rep)
+    symbol_normalisation(F, rep)
     # the action names the row classifier LISTS are the ones it acts on: no guard arm above shadows a listed literal
     # (shared engine with C19-R4)
     import rules.c19 as _c19
